@@ -498,3 +498,52 @@ fn f14_finish_after_failed_start_in_append_mode_does_not_panic() {
         std::mem::forget(aw);
     }
 }
+
+// ---- F15 (C12, C13, C14, C11): a refused finish() followed by a corrected retry must not re-patch the last closed entry
+mod f15 {
+    use std::io::{Cursor, Read, Write};
+    use zip::write::FileOptions;
+    use zip::{ZipArchive, ZipWriter, CompressionMethod};
+    fn source() -> Vec<u8> {
+    let mut w = ZipWriter::new(Cursor::new(Vec::new()));
+    w.start_file("x.txt", FileOptions::default().compression_method(CompressionMethod::Deflated)).unwrap();
+    w.write_all(&vec![b'a'; 5000]).unwrap();
+    w.finish().unwrap().into_inner()
+}
+
+// F15a: a refused finish() (comment too long), then a corrected comment and a second finish():
+// the raw-copied last entry must still hold its source's content.
+#[test]
+fn f15_retry_finish_after_refused_comment_keeps_raw_copy() {
+    let src = source();
+    let mut a = ZipArchive::new(Cursor::new(src)).unwrap();
+    let mut w = ZipWriter::new(Cursor::new(Vec::new()));
+    w.raw_copy_file(a.by_index(0).unwrap()).unwrap();
+    w.set_raw_comment(vec![b'c'; 70000]);
+    assert!(w.finish().is_err());
+    w.set_comment("ok");
+    let out = w.finish().unwrap().into_inner();
+    let mut r = ZipArchive::new(Cursor::new(out)).unwrap();
+    let mut f = r.by_index(0).unwrap();
+    let mut v = Vec::new();
+    f.read_to_end(&mut v).expect("raw copy must read back");
+    assert_eq!(v, vec![b'a'; 5000]);
+}
+
+// F15b: the same for append: the last old entry must survive a refused finish() + retry.
+#[test]
+fn f15_retry_finish_after_refused_comment_keeps_appended_archive() {
+    let src = source();
+    let mut w = ZipWriter::new_append(Cursor::new(src)).unwrap();
+    w.set_raw_comment(vec![b'c'; 70000]);
+    assert!(w.finish().is_err());
+    w.set_comment("ok");
+    let out = w.finish().unwrap().into_inner();
+    let mut r = ZipArchive::new(Cursor::new(out)).unwrap();
+    let mut f = r.by_index(0).unwrap();
+    let mut v = Vec::new();
+    f.read_to_end(&mut v).expect("old entry must read back");
+    assert_eq!(v, vec![b'a'; 5000]);
+}
+
+}
